@@ -216,7 +216,8 @@ class RealFloat__round_at_stochastic(Contract):
     split = ['rm']
     # path-queries that neither prove nor refute within budget (nonlinear: nested divisions by
     # symbolic powers of two) fall back to a bounded check, exponents/widths <= 12, reported as bounded
-    options = {'call_counts': {'RealFloat._generate_randbits': 1}, 'bounded_fallback': 12, 'bounded_ms': 60000}
+    options = {'call_counts': {'RealFloat._generate_randbits': 1}, 'bounded_fallback': 12, 'bounded_ms': 60000,
+               'split_heavy': True}
 
     def pre(self, p, n, emin, rm, num_randbits, rng, exact):
         return {
@@ -231,14 +232,20 @@ class RealFloat__round_at_stochastic(Contract):
         r = result
         sh = n + 1 - self._exp
         k = (ite(sh >= 0, sh, 0)) if num_randbits is None else num_randbits
-        draw = ghost('draw', k)
-        lo = rnd_at(self, p, n, RoundingMode.RTZ)
-        hi = rnd_at(self, p, n, RoundingMode.RAZ)
-        grid = on_grid(self, n)
-        away = (False if grid else sr_away(self, n, k, rm, draw))
-        return {
+        out = {
             'sign': r._s == self._s,
             'wf': r._c >= 0,
+            'member_p': p is None or bl(r._c) <= p,
+            'member_n': r._exp > n or r._exp == self._exp,
+            'tiny_pre': r._flags.tiny_pre == tiny_pre_spec(self, emin),
+            'other_flags': not r._flags.invalid and not r._flags.divzero and not r._flags.overflow,
+            'fresh': not same_obj(r, self),
+        }
+        grid = on_grid(self, n)
+        lo = rnd_at(self, p, n, RoundingMode.RTZ)
+        hi = rnd_at(self, p, n, RoundingMode.RAZ)
+        away = (False if grid else sr_away(self, n, k, rm, ghost('draw', k)))
+        out.update({
             # Z2: representable => unchanged (and exact)
             'Z2_exp': implies(grid, r._exp == lo[0]),
             'Z2_c': implies(grid, r._c == lo[1]),
@@ -247,12 +254,8 @@ class RealFloat__round_at_stochastic(Contract):
             'Z3_exp': implies(not grid, r._exp == ite(away, hi[0], lo[0])),
             'Z3_c': implies(not grid, r._c == ite(away, hi[1], lo[1])),
             'Z3_inexact': implies(not grid, r._flags.inexact),
-            'member_p': p is None or bl(r._c) <= p,
-            'member_n': r._exp > n or r._exp == self._exp,
-            'tiny_pre': r._flags.tiny_pre == tiny_pre_spec(self, emin),
-            'other_flags': not r._flags.invalid and not r._flags.divzero and not r._flags.overflow,
-            'fresh': not same_obj(r, self),
-        }
+        })
+        return out
 
     def raises(self, p, n, emin, rm, num_randbits, rng, exact):
         return {}
@@ -276,38 +279,44 @@ class RealFloat_round(Contract):
         r = result
         n = round_nstar(self, max_p, min_n)
         det = num_randbits is not None and num_randbits == 0
-        R = rnd_at(self, max_p, n, rm)
         emin = (max_p + min_n) if (max_p is not None and min_n is not None) else None
-        # stochastic part (C17)
-        sh = n + 1 - self._exp
-        k = (ite(sh >= 0, sh, 0)) if num_randbits is None else num_randbits
-        lo = rnd_at(self, max_p, n, RoundingMode.RTZ)
-        hi = rnd_at(self, max_p, n, RoundingMode.RAZ)
-        grid = on_grid(self, n)
-        away = (False if grid else sr_away(self, n, k, rm, ghost('draw', k)))
-        return {
+        out = {
             'fresh': not same_obj(r, self),
             'sign': r._s == self._s,
             'wf': r._c >= 0,
             # R1 membership
             'member_n': min_n is None or r._exp > min_n,
             'member_p': max_p is None or bl(r._c) <= max_p,
-            # deterministic: the correctly rounded value and truthful flags
-            'exp': implies(det, r._exp == R[0]),
-            'c': implies(det, r._c == R[1]),
-            'inexact': implies(det, r._flags.inexact == R[2]),
-            'carry': implies(det, r._flags.carry == R[3]),
-            'tiny_pre': implies(det, r._flags.tiny_pre == tiny_pre_spec(self, emin)),
-            'tiny_post': implies(det, r._flags.tiny_post == tiny_post_spec(self, n, emin, rm)),
+            'tiny_pre': r._flags.tiny_pre == tiny_pre_spec(self, emin),
             'other_flags': not r._flags.invalid and not r._flags.divzero and not r._flags.overflow,
-            # stochastic: Z2 / Z3
-            'Z2_exp': implies(not det and grid, r._exp == lo[0]),
-            'Z2_c': implies(not det and grid, r._c == lo[1]),
-            'Z2_exact': implies(not det and grid, not r._flags.inexact),
-            'Z3_exp': implies(not det and not grid, r._exp == ite(away, hi[0], lo[0])),
-            'Z3_c': implies(not det and not grid, r._c == ite(away, hi[1], lo[1])),
-            'Z3_inexact': implies(not det and not grid, r._flags.inexact),
         }
+        if det:
+            # deterministic: the correctly rounded value and truthful flags
+            R = rnd_at(self, max_p, n, rm)
+            out.update({
+                'exp': r._exp == R[0],
+                'c': r._c == R[1],
+                'inexact': r._flags.inexact == R[2],
+                'carry': r._flags.carry == R[3],
+                'tiny_post': r._flags.tiny_post == tiny_post_spec(self, n, emin, rm),
+            })
+        else:
+            # stochastic (C17): Z2 / Z3
+            sh = n + 1 - self._exp
+            k = (ite(sh >= 0, sh, 0)) if num_randbits is None else num_randbits
+            grid = on_grid(self, n)
+            lo = rnd_at(self, max_p, n, RoundingMode.RTZ)
+            hi = rnd_at(self, max_p, n, RoundingMode.RAZ)
+            away = (False if grid else sr_away(self, n, k, rm, ghost('draw', k)))
+            out.update({
+                'Z2_exp': implies(grid, r._exp == lo[0]),
+                'Z2_c': implies(grid, r._c == lo[1]),
+                'Z2_exact': implies(grid, not r._flags.inexact),
+                'Z3_exp': implies(not grid, r._exp == ite(away, hi[0], lo[0])),
+                'Z3_c': implies(not grid, r._c == ite(away, hi[1], lo[1])),
+                'Z3_inexact': implies(not grid, r._flags.inexact),
+            })
+        return out
 
     def raises(self, max_p, min_n, rm, num_randbits, rng, exact):
         return {
